@@ -57,9 +57,13 @@ class Rows:
         return self
 
 
-class Row:
-    def __init__(self, i):
+class Row(Rows):
+    """one table row: the samples [i*NSBLK, (i+1)*NSBLK) as returned by read_subint_pol (channel order of the file)"""
+
+    def __init__(self, i, nsblk=None):
         self.i = i
+        if nsblk is not None:
+            Rows.__init__(self, z3.simplify(i * nsblk), z3.simplify((i + 1) * nsblk), False, True)
 
 
 def make_np(nsblk):
@@ -106,7 +110,7 @@ def build(ctx, foff):
             if not SBool(z3.And(i >= 0, i < nrows)):
                 raise IndexError("row index out of bounds (symbolic)")
             Fits.reads.append(i)
-            return Row(i)
+            return Row(i, nsblk)
         read_subints = rebind(pfits.PFITSFile.read_subints, np=NPs)
 
     class Hdr:
@@ -250,14 +254,15 @@ def work(P, item):
                 continue
             v = o["vars"]
             extra = [c]
-            if rf is not None and foff < 0:
+            if rf is not None:
+                # replay at the shape of the shipped file (for foff > 0: a copy whose DAT_FREQ columns are reversed)
                 extra += [v["NSBLK"] == rf[0], v["nrows"] == rf[1]]
             if ctx.check(*extra) != z3.sat:
                 m = ctx.solver.model() if ctx.check(c) == z3.sat else None
                 P.inconclusive_(f"{label}/{n_}: violated for {m}, but not at the shape of the only PSRFITS file available for replay")
                 break
             m = ctx.solver.model()
-            params = dict(kind=o["kind"])
+            params = dict(kind=o["kind"], ascending=bool(foff > 0))
             for k_, t in v.items():
                 params[k_] = None if t is None else m.eval(t, model_completion=True).as_long()
             src = ("import sys, json\nfrom symx.concrete import c18\n"
